@@ -14,7 +14,7 @@ Widths: 1, 2, 3, 4, 6, 8, 16 (quick) + 32 (thorough; quick runs 32 for the multi
 families where the code switches algorithm).
 """
 from .common import *
-from . import c02 as g02, c03 as g03, c05 as g05, c06 as g06, c07 as g07, c20 as g20
+from . import c02 as g02, c03 as g03, c05 as g05, c06 as g06, c07 as g07, c10 as g10, c20 as g20
 
 RULE = ('one line = one route family (2..33 routes of the same operation, listed in harness/src/ops/c15.rs) executed on '
         'one input from the directed families of C02-C07, C20 (see tools/gen/c15.py) + seeded structured random; every '
@@ -30,6 +30,7 @@ U32MAX = (1 << 32) - 1
 WIDTHS_Q = [1, 2, 3, 4, 6, 8, 16]
 WIDTHS_T = [1, 2, 3, 4, 6, 8, 16, 32]
 MULMOD_W = [1, 2, 3, 4, 8, 16]
+C10_W = [1, 2, 3, 4, 6, 8, 16]
 
 # the compile-time table of the harness (harness/src/ops/c15.rs CA / CB_ / CS)
 CA = [0, 1, (1 << 256) - 1, 1 << 255,
@@ -216,3 +217,55 @@ def gen(tier, rng):
             for x in uniq([0, 1, m - 1, l, l - 1, (l << (64 * (n - 1))) % m, ((l << (64 * (n - 1))) - 1) % m]
                           + [value(rng, n) for _ in range(3 if quick else 12)]):
                 yield f"c15.divlimb {n} {hx(x)} {hx(l)}"
+
+    # ---------------------------------------------------------------- C10: inversion mod 2^k, odd modulus (precomputed vs one-shot), gcd
+    lines = []
+    for n in C10_W:
+        w = 64 * n
+        r = g10.reps_for(n, 16 if quick else 120)
+        ks = sorted(set([0, 1, 2, 63, 64, 65, w - 1, w] + [rng.randrange(w + 1) for _ in range(r)]))
+        for k in ks:
+            if k > w:
+                continue
+            for a in (1, 3, (1 << w) - 1, 2, 0, rng.getrandbits(w) | 1, value(rng, n)):
+                lines.append(f"c15.inv_mod2k {n} {hx(a % (1 << w))} {k}")
+        for _ in range(r * 2):
+            m, fac = g10.odd_modulus(rng, w)
+            for _ in range(2):
+                a = g10.operand(rng, w, m, fac)
+                lines.append(f"c15.inv_odd_mod {n} {hx(a)} {hx(m)}")
+        for _ in range(r * 3):
+            a, b = g10.gcd_pair(rng, w)
+            lines.append(f"c15.gcd {n} {hx(a)} {hx(b)}")
+    rng.shuffle(lines)          # the safegcd model costs ~ n^2 per line: balance the runner's chunks
+    yield from lines
+
+    # ---------------------------------------------------------------- BoxedUint operands of two different precisions
+    blens = [1, 2, 3, 4, 5, 8, 16, 17] if quick else list(range(1, 21)) + [33, 40]
+    for na in blens:
+        others = sorted({1, 2, max(1, na - 1), na + 1, na}) if quick else sorted(set(blens[::3] + [na, na + 1, max(1, na - 1)]))
+        for nb in others:
+            k = min(na, nb)
+            ma, mb = 1 << (64 * na), 1 << (64 * nb)
+            ps = [(ma - 1, 1), (ma - 1, mb - 1), (0, 1), (0, 0), (1, mb - 1), (ma - 1, 0), (0, mb - 1), (ma // 2, mb // 2),
+                  ((1 << (64 * k)) - 1, 1), (5, 1 << (64 * k) if k < nb else 5), (1 << (64 * k) if k < na else 7, 9)]
+            for _ in range(3 if quick else 10):
+                ps.append((value(rng, na), value(rng, nb)))
+                ps.append(pair(rng, k))
+            for a, b in ps:
+                a %= ma; b %= mb
+                fams = ('add', 'sub', 'and', 'or', 'xor', 'cmp', 'mul')
+                for f in (fams if not quick else rng.sample(fams, 4)):
+                    yield f"c15.bm.{f} {na} {hx(a)} {nb} {hx(b)}"
+    glines = []
+    for na in ([1, 2, 3, 4, 8] if quick else [1, 2, 3, 4, 5, 8, 12, 16]):
+        for nb in ([1, 2, 3, 4, 8] if quick else [1, 2, 3, 4, 5, 8, 12, 16]):
+            w = 64 * min(na, nb)
+            for _ in range(g10.reps_for(max(na, nb), 6 if quick else 40)):
+                a, b = g10.gcd_pair(rng, w)
+                if rng.randrange(2):
+                    a = (a * (rng.getrandbits(64 * (na - min(na, nb))) | 1)) % (1 << (64 * na)) if na > nb else a
+                    b = (b * (rng.getrandbits(64 * (nb - min(na, nb))) | 1)) % (1 << (64 * nb)) if nb > na else b
+                glines.append(f"c15.bm.gcd {na} {hx(a)} {nb} {hx(b)}")
+    rng.shuffle(glines)
+    yield from glines
